@@ -24,11 +24,12 @@ pub struct HistPlan
     pub c10: bool,
     pub secs: u64,
     pub max_states: usize,
+    pub ordered: bool,
 }
 
 fn plan(sc: Scenario, depth: usize) -> HistPlan
 {
-    HistPlan { scenario: sc, clock: ClockModel::Strict, depth, paired: false, c10: false, secs: 40, max_states: 3_000_000 }
+    HistPlan { scenario: sc, clock: ClockModel::Strict, depth, paired: false, c10: false, secs: 40, max_states: 4_000_000, ordered: true }
 }
 
 /// Runs the plans for one property, fills the report.
@@ -57,6 +58,7 @@ pub fn run_hist_plans(rep: &mut Report, id: &str, plans: Vec<HistPlan>)
             deadline: Instant::now() + Duration::from_secs(p.secs),
             threads: threads(),
             c10_probes: p.c10,
+            ordered_key: p.ordered,
         };
         let r = hist::run_hist(&cfg);
         states += r.states;
@@ -70,6 +72,7 @@ pub fn run_hist_plans(rep: &mut Report, id: &str, plans: Vec<HistPlan>)
         j["scenario"] = json!(p.scenario.name);
         j["clock"] = json!(format!("{:?}", p.clock));
         j["depth_bound"] = json!(p.depth);
+        j["state_key"] = json!(if p.ordered { "total order of timestamps" } else { "equality partition of timestamps" });
         j["states"] = json!(r.states);
         j["transitions"] = json!(r.stats.transitions);
         per.push(j);
@@ -478,6 +481,7 @@ fn check(id: &str, tier: &str) -> i32
                 p.secs = secs;
                 plans.push(p);
             }
+            { let mut p = plan(scen::s7_preserving(), tiered(tier, 6, 8)); p.secs = secs; plans.push(p); }
             for m in (if thorough { vec![0u8, 1, 2, 3, 4, 5, 6, 7] } else { vec![3u8, 5, 6, 7] })
             {
                 let mut p = plan(scen::s7_undeclared3(m), tiered(tier, 5, 7));
@@ -495,10 +499,12 @@ fn check(id: &str, tier: &str) -> i32
                 for (sc, q, t) in vec![(scen::s3_c18(), 10, 14), (scen::s4_c18(), 8, 12), (scen::s1_chain(), 6, 8), (scen::s3_multi(), 5, 8),
                     (scen::s4_twins(), 6, 8), (scen::s5_variants(), 5, 8), (scen::s2_diamond(), 5, 7), (scen::s6_exec(), 6, 9)]
                 {
+                    let saturating = sc.name.ends_with("-c18");
                     let mut p = plan(sc, tiered(tier, q, t));
                     p.clock = clock;
                     p.paired = true;
                     p.secs = secs;
+                    p.ordered = !saturating;
                     plans.push(p);
                 }
             }
